@@ -737,6 +737,10 @@ class IteratorQueue(IterableQueue[_ValueT]):
         _release_and_notify(
             self._states_lock, notify=self._dequeue_lock, notify_all=True
         )
+        # Other producers may still be blocked in put() on a full queue.
+        _release_and_notify(
+            self._states_lock, notify=self._enqueue_lock, notify_all=True
+        )
         logging.debug(
             'chainable: %s', f'"{self.name}" enqueue done, notify all'
         )
